@@ -14,11 +14,11 @@ from ..runner import Skip
 
 RELS = ["permute_vertices", "permute_edges", "relabel_ids", "shift_2pi", "negate_quaternions", "split_edge", "scale_information"]
 RULE = ("cases from rng(seed, 8, 0, i): relation = i mod 7 of " + ", ".join(RELS) + "; graphs: cluster graphs (mixed pose types, landmarks with rotated offsets, parallel / "
-        "reversed edges) and trajectory graphs; information block-diagonal or with translation-rotation cross terms; K in 1..4 iterations or a run to convergence. "
+        "reversed edges) and trajectory graphs; information block-diagonal or with translation-rotation cross terms; K in 1..4 iterations or a run to convergence, fix_first_pose in {True, False}. "
         "distinct = fingerprint(spec, relation, K); non-trivial = the relation changed the representation (e.g. at least one quaternion negated / id changed) and the "
         "optimizer moved some vertex by > 1e-6.")
 REQ = ["eval:chi2-representation-invariant", "eval:result-representation-invariant"] + ["rel:" + r for r in RELS] + [
-    "class:info_cross_terms", "class:info_blockdiag", "class:negated_vertex_quat", "class:negated_measurement_quat", "class:negated_offset_quat", "class:run_to_convergence"]
+    "class:info_cross_terms", "class:info_blockdiag", "class:negated_vertex_quat", "class:negated_measurement_quat", "class:negated_offset_quat", "class:run_to_convergence", "class:fix_first_pose=True", "class:fix_first_pose=False"]
 PLAN = {
     "quick": {"cases": 1400, "soft_s": 90, "min_nontrivial": 400, "require": REQ},
     "thorough": {"cases": 56000, "soft_s": 1500, "min_nontrivial": 12000, "require": REQ},
@@ -109,7 +109,7 @@ def run_case(ctx, i, rng):
     else:
         kinds = None
     if rng.random() < 0.6:
-        spec, labels = gen.cluster_graph(rng, kinds=kinds, custom=False, cross=cross, shuffle=False, weird_ids=bool(rng.random() < 0.3))
+        spec, labels = gen.cluster_graph(rng, kinds=kinds, custom=False, cross=cross, shuffle=False, weird_ids=bool(rng.random() < 0.3), special=bool(rng.random() < 0.3))
     else:
         k = kinds[0] if kinds else str(rng.choice(R.KINDS))
         n = int(rng.integers(3, 10))
@@ -147,11 +147,15 @@ def run_case(ctx, i, rng):
     if dx is None or cond > 1e8:
         raise Skip("cond(H) > 1e8")
     kw = {"max_iter": mode, "tol": 0.0} if mode else {"max_iter": 50, "tol": 1e-10}
+    # default behaviour (fix_first_pose=True: the first *listed* vertex is the gauge) wherever the relation keeps the list order
+    ffp = bool(rel != "permute_vertices" and rng.random() < 0.5)
+    ctx.count("class:fix_first_pose=%s" % ffp)
+    feats = dict(feats, fix_first_pose=ffp)
     if not mode:
         ctx.count("class:run_to_convergence")
     try:
-        r1 = M.quiet_optimize(g, fix_first_pose=False, **kw)
-        r2 = M.quiet_optimize(g2, fix_first_pose=False, **kw)
+        r1 = M.quiet_optimize(g, fix_first_pose=ffp, **kw)
+        r2 = M.quiet_optimize(g2, fix_first_pose=ffp, **kw)
     except Exception as ex:
         ctx.check("result-representation-invariant", False, dict(feats, exception=type(ex).__name__), {"message": str(ex)[:300]}, case)
         return
